@@ -1047,3 +1047,358 @@ Lemma orphan_refuted :
   ask fixed W_orphan [] (QIntroType (nm "T")) <> ask fixed (erase_physical W_orphan []) [fa] (QIntroType (nm "T")) /\
   ask fixed W_orphan [] (QNamedV (nm "T")) <> ask fixed (erase_physical W_orphan []) [fa] (QNamedV (nm "T")).
 Proof. vm_compute. repeat split; try reflexivity; intro H; discriminate H. Qed.
+
+(** ** the transcribed chain consumers are disciplined: they never present a pointer they were not
+    handed (so the instances of [noninterference] for them are not the trivial [Forged = Forged]) *)
+Section Discipline.
+  Variable fx : fixes.
+  Variable S : schema.
+  Variable F : features.
+
+  Definition incl_known (a b : list name) : Prop := forall h, mem h a = true -> mem h b = true.
+
+  (** weakest precondition over [run]: the program never forges and ends in a state satisfying Q *)
+  Fixpoint wp {A} (known : list name) (p : prog A) (Q : A -> list name -> Prop) : Prop :=
+    match p with
+    | Ret a => Q a known
+    | Ask q k =>
+        forallb (fun h => mem h known) (handle_args q) = true /\
+        wp (handles_of q (ask fx S F q) ++ known) (k (ask fx S F q)) Q
+    end.
+
+  Lemma wp_mono {A} (p : prog A) : forall known (Q Q' : A -> list name -> Prop),
+    (forall a kn, Q a kn -> Q' a kn) -> wp known p Q -> wp known p Q'.
+  Proof.
+    induction p as [a | q k IH]; intros known Q Q' HQ H; simpl in *; [auto|].
+    destruct H as [H1 H2]. split; [exact H1|]. eapply IH; eauto.
+  Qed.
+
+  Lemma wp_bind {A B} (p : prog A) (f : A -> prog B) : forall known (Q : B -> list name -> Prop),
+    wp known p (fun a kn => wp kn (f a) Q) -> wp known (bind p f) Q.
+  Proof.
+    induction p as [a | q k IH]; intros known Q H; simpl in *; [exact H|].
+    destruct H as [H1 H2]. split; [exact H1|]. apply IH. exact H2.
+  Qed.
+
+  Lemma wp_run {A} (p : prog A) : forall known Q, wp known p Q -> exists a, snd (run fx S F known p) = Done a.
+  Proof.
+    induction p as [a | q k IH]; intros known Q H; simpl in *; [eauto|].
+    destruct H as [H1 H2]. rewrite H1.
+    destruct (IH _ _ _ H2) as [a Ha].
+    destruct (run fx S F (handles_of q (ask fx S F q) ++ known) (k (ask fx S F q))) as [tr r].
+    simpl in *. eauto.
+  Qed.
+
+  Lemma mem_app_r h a b : mem h b = true -> mem h (a ++ b) = true.
+  Proof. intro H. apply mem_In. apply in_or_app. right. apply mem_In. exact H. Qed.
+  Lemma mem_app_l h a b : mem h a = true -> mem h (a ++ b) = true.
+  Proof. intro H. apply mem_In. apply in_or_app. left. apply mem_In. exact H. Qed.
+  Lemma mem_head h l : mem h (h :: l) = true.
+  Proof. apply mem_In. left; reflexivity. Qed.
+
+  Lemma incl_known_refl a : incl_known a a.
+  Proof. intros h H; exact H. Qed.
+  Lemma incl_known_app a b : incl_known b (a ++ b).
+  Proof. intros h H. apply mem_app_r. exact H. Qed.
+  Lemma incl_known_trans a b c : incl_known a b -> incl_known b c -> incl_known a c.
+  Proof. intros H1 H2 h H. auto. Qed.
+
+  Fixpoint frags (c : list cnode) : list name :=
+    match c with
+    | [] => []
+    | CFrag t :: r => t :: frags r
+    | _ :: r => frags r
+    end.
+
+  Definition parent_known (parent : option name) (known : list name) : Prop :=
+    match parent with Some p => mem p known = true | None => True end.
+
+  (** the validator: never forges; afterwards the known set has only grown and, if it reported no
+      error, every type condition of the chain has been resolved to a held pointer *)
+  Lemma cval_wp c : forall depth parent known,
+    parent_known parent known ->
+    wp known (cval depth parent c)
+       (fun errs kn => incl_known known kn /\ (errs = [] -> forall t, In t (frags c) -> mem t kn = true)).
+  Proof.
+    induction c as [|n rest IH]; intros depth parent known HP.
+    - simpl. split; [apply incl_known_refl | intros _ t []].
+    - (* a continuation pattern used several times: run the rest, then add (or not) an error here *)
+      assert (K : forall parent' kn (flag : bool) (extra : list name),
+                 incl_known known kn -> parent_known parent' kn ->
+                 (forall t, In t extra -> mem t kn = true) ->
+                 wp kn (bind (cval (Datatypes.S depth) parent' rest) (fun es => Ret (if flag then depth :: es else es)))
+                    (fun errs kn' => incl_known known kn' /\
+                                     (errs = [] -> forall t, In t (extra ++ frags rest) -> mem t kn' = true))).
+      { intros parent' kn flag extra Hi Hp He. apply wp_bind.
+        eapply wp_mono; [|apply (IH (Datatypes.S depth) parent' kn Hp)].
+        intros es kn' [Hi' Hf]. simpl. split; [eapply incl_known_trans; eauto|].
+        intros Hnil t Ht. destruct flag; [discriminate|]. apply in_app_or in Ht as [Ht | Ht]; auto. }
+      assert (K0 : forall parent' kn,
+                 incl_known known kn -> parent_known parent' kn ->
+                 wp kn (cval (Datatypes.S depth) parent' rest)
+                    (fun errs kn' => incl_known known kn' /\ (errs = [] -> forall t, In t (frags rest) -> mem t kn' = true))).
+      { intros parent' kn Hi Hp. eapply wp_mono; [|apply (IH (Datatypes.S depth) parent' kn Hp)].
+        intros es kn' [Hi' Hf]. split; [eapply incl_known_trans; eauto | exact Hf]. }
+      destruct n as [f | t |].
+      + (* CField *)
+        cbn [cval frags].
+        assert (U : forall kn, incl_known known kn ->
+                   wp kn (bind (cval (Datatypes.S depth) None rest) (fun es => Ret (if is_nil rest then es else depth :: es)))
+                      (fun errs kn' => incl_known known kn' /\ (errs = [] -> forall t, In t (frags rest) -> mem t kn' = true))).
+        { intros kn Hi. pose proof (K None kn (negb (is_nil rest)) [] Hi I (fun t H => match H with end)) as H.
+          destruct (is_nil rest); exact H. }
+        destruct parent as [p|]; [|apply U; apply incl_known_refl].
+        simpl in HP. cbn [wp handle_args forallb]. rewrite HP. split; [reflexivity|].
+        set (kn1 := handles_of (QKind p) (ask fx S F (QKind p)) ++ known).
+        assert (Hi1 : incl_known known kn1) by apply incl_known_app.
+        destruct (ask fx S F (QKind p)) as [| | [[| | | | |]|] | | | | | |]; try (apply U; exact Hi1).
+        * (* object *)
+          cbn [wp handle_args forallb]. rewrite (Hi1 p HP). split; [reflexivity|].
+          set (kn2 := handles_of (QField p f) (ask fx S F (QField p f)) ++ kn1).
+          assert (Hi2 : incl_known known kn2) by (eapply incl_known_trans; [exact Hi1 | apply incl_known_app]).
+          destruct (ask fx S F (QField p f)) as [| | | [fd|] | | | | |] eqn:AF;
+            try (apply (K None kn2 true [] Hi2 I (fun t H => match H with end))).
+          cbn [wp handle_args forallb].
+          assert (Hb : mem (base (f_type fd)) kn2 = true).
+          { unfold kn2. apply mem_app_l. simpl. unfold field_handles. apply mem_head. }
+          rewrite Hb. split; [reflexivity|].
+          set (kn3 := handles_of (QKind (base (f_type fd))) (ask fx S F (QKind (base (f_type fd)))) ++ kn2).
+          apply (K (Some (base (f_type fd))) kn3 _ []).
+          -- eapply incl_known_trans; [exact Hi2 | apply incl_known_app].
+          -- simpl. unfold kn3. apply mem_app_r. exact Hb.
+          -- intros t [].
+        * (* interface *)
+          cbn [wp handle_args forallb]. rewrite (Hi1 p HP). split; [reflexivity|].
+          set (kn2 := handles_of (QField p f) (ask fx S F (QField p f)) ++ kn1).
+          assert (Hi2 : incl_known known kn2) by (eapply incl_known_trans; [exact Hi1 | apply incl_known_app]).
+          destruct (ask fx S F (QField p f)) as [| | | [fd|] | | | | |] eqn:AF;
+            try (apply (K None kn2 true [] Hi2 I (fun t H => match H with end))).
+          cbn [wp handle_args forallb].
+          assert (Hb : mem (base (f_type fd)) kn2 = true).
+          { unfold kn2. apply mem_app_l. simpl. unfold field_handles. apply mem_head. }
+          rewrite Hb. split; [reflexivity|].
+          set (kn3 := handles_of (QKind (base (f_type fd))) (ask fx S F (QKind (base (f_type fd)))) ++ kn2).
+          apply (K (Some (base (f_type fd))) kn3 _ []).
+          -- eapply incl_known_trans; [exact Hi2 | apply incl_known_app].
+          -- simpl. unfold kn3. apply mem_app_r. exact Hb.
+          -- intros t [].
+        * (* union *)
+          apply (K None kn1 true [] Hi1 I (fun t H => match H with end)).
+      + (* CFrag *)
+        cbn [cval frags wp handle_args forallb]. split; [reflexivity|].
+        set (kn1 := handles_of (QNamedV t) (ask fx S F (QNamedV t)) ++ known).
+        assert (Hi1 : incl_known known kn1) by apply incl_known_app.
+        assert (Kerr : wp kn1 (bind (cval (Datatypes.S depth) None rest) (fun es => Ret (depth :: es)))
+                          (fun errs kn' => incl_known known kn' /\
+                                           (errs = [] -> forall t0, In t0 (t :: frags rest) -> mem t0 kn' = true))).
+        { apply wp_bind. eapply wp_mono; [|apply (IH (Datatypes.S depth) None kn1 I)].
+          intros es kn' [Hi' _]. simpl. split; [eapply incl_known_trans; eauto | discriminate]. }
+        destruct (ask fx S F (QNamedV t)) as [[h|] | | | | | | | |] eqn:AN; try exact Kerr.
+        assert (Hh : h = t).
+        { simpl in AN. destruct (lookup S t) as [x|]; [destruct (subset (type_req x) F)|];
+            try (destruct (mem t meta_names); discriminate); inversion AN; reflexivity. }
+        subst h.
+        assert (Ht1 : mem t kn1 = true) by (unfold kn1; apply mem_app_l; simpl; apply mem_head).
+        cbn [wp handle_args forallb]. rewrite Ht1. split; [reflexivity|].
+        set (kn2 := handles_of (QKind t) (ask fx S F (QKind t)) ++ kn1).
+        assert (Hi2 : incl_known known kn2) by (eapply incl_known_trans; [exact Hi1 | apply incl_known_app]).
+        assert (Ht2 : mem t kn2 = true) by (unfold kn2; apply mem_app_r; exact Ht1).
+        (* every continuation from here keeps t known *)
+        assert (Kt : forall kn (flag : bool), incl_known kn2 kn ->
+                   wp kn (bind (cval (Datatypes.S depth) (Some t) rest) (fun es => Ret (if flag then depth :: es else es)))
+                      (fun errs kn' => incl_known known kn' /\
+                                       (errs = [] -> forall t0, In t0 (t :: frags rest) -> mem t0 kn' = true))).
+        { intros kn flag Hk.
+          apply (K (Some t) kn flag [t]).
+          - eapply incl_known_trans; eauto.
+          - simpl. apply Hk. exact Ht2.
+          - intros t0 [E | []]. subst t0. apply Hk. exact Ht2. }
+        assert (Kt0 : forall kn, incl_known kn2 kn ->
+                   wp kn (cval (Datatypes.S depth) (Some t) rest)
+                      (fun errs kn' => incl_known known kn' /\
+                                       (errs = [] -> forall t0, In t0 (t :: frags rest) -> mem t0 kn' = true))).
+        { intros kn Hk. eapply wp_mono; [|apply (IH (Datatypes.S depth) (Some t) kn)].
+          - intros es kn' [Hi' Hf]. split; [eapply incl_known_trans; [|exact Hi']; eapply incl_known_trans; eauto|].
+            intros Hnil t0 [E | Ht0]; [subst t0; apply Hi', Hk; exact Ht2 | auto].
+          - simpl. apply Hk. exact Ht2. }
+        destruct (ask fx S F (QKind t)) as [| | k | | | | | |];
+          try (eapply wp_mono; [|apply (IH (Datatypes.S depth) None kn2 I)];
+               intros es kn' [Hi' Hf]; split; [eapply incl_known_trans; eauto|];
+               intros Hnil t0 [E | Ht0]; [subst t0; apply Hi'; exact Ht2 | auto]).
+        destruct (is_composite k).
+        * destruct parent as [p|]; [|apply Kt0; apply incl_known_refl].
+          simpl in HP. cbn [wp handle_args forallb]. rewrite Ht2. split; [reflexivity|].
+          set (kn3 := handles_of (QPossibleV t) (ask fx S F (QPossibleV t)) ++ kn2).
+          assert (Hp3 : mem p kn3 = true) by (unfold kn3; apply mem_app_r; apply Hi2; exact HP).
+          rewrite Hp3. split; [reflexivity|].
+          set (kn4 := handles_of (QPossibleV p) (ask fx S F (QPossibleV p)) ++ kn3).
+          assert (Hk4 : incl_known kn2 kn4).
+          { eapply incl_known_trans; [|apply incl_known_app]. apply incl_known_app. }
+          match goal with
+          | |- wp _ (bind _ (fun es => Ret (if ?c then es else depth :: es))) _ =>
+              pose proof (Kt kn4 (negb c) Hk4) as HK; destruct c; exact HK
+          end.
+        * apply (Kt kn2 true). apply incl_known_refl.
+      + (* CTypename *)
+        cbn [cval frags]. apply K0; [apply incl_known_refl | exact I].
+  Qed.
+
+  (** the executor on an object type it holds, over a chain whose type conditions are all held *)
+  Lemma cexec_wp c : forall obj log known,
+    mem obj known = true -> (forall t, In t (frags c) -> mem t known = true) ->
+    wp known (cexec obj c log) (fun _ _ => True).
+  Proof.
+    induction c as [|n rest IH]; intros obj log known Ho Hf; [exact I|].
+    destruct n as [f | t |]; [| |exact I].
+    - (* CField *)
+      cbn [cexec wp handle_args forallb]. rewrite Ho. split; [reflexivity|].
+      set (kn1 := handles_of (QField obj f) (ask fx S F (QField obj f)) ++ known).
+      assert (Hi1 : incl_known known kn1) by apply incl_known_app.
+      destruct (ask fx S F (QField obj f)) as [| | | [fd|] | | | | |]; try exact I.
+      cbn [wp handle_args forallb].
+      assert (Hb : mem (base (f_type fd)) kn1 = true).
+      { unfold kn1. apply mem_app_l. simpl. unfold field_handles. apply mem_head. }
+      rewrite Hb. split; [reflexivity|].
+      set (kn2 := handles_of (QKind (base (f_type fd))) (ask fx S F (QKind (base (f_type fd)))) ++ kn1).
+      assert (Hi2 : incl_known known kn2) by (eapply incl_known_trans; [exact Hi1 | apply incl_known_app]).
+      assert (Hf2 : forall t, In t (frags rest) -> mem t kn2 = true) by (intros t Ht; apply Hi2, Hf; exact Ht).
+      assert (Hb2 : mem (base (f_type fd)) kn2 = true) by (unfold kn2; apply mem_app_r; exact Hb).
+      destruct (ask fx S F (QKind (base (f_type fd)))) as [| | [[| | | | |]|] | | | | | |]; try exact I.
+      + apply IH; auto.
+      + cbn [wp handle_args forallb]. rewrite Hb2. split; [reflexivity|].
+        set (kn3 := handles_of (QImpls (base (f_type fd))) (ask fx S F (QImpls (base (f_type fd)))) ++ kn2).
+        destruct (ask fx S F (QImpls (base (f_type fd)))) as [| | | | [cands|] | | | |] eqn:AI; try exact I.
+        destruct (mem (f_ret fd) cands) eqn:M; [|exact I].
+        apply IH.
+        * unfold kn3. apply mem_app_l. simpl. exact M.
+        * intros t Ht. unfold kn3. apply mem_app_r. auto.
+      + cbn [wp handle_args forallb]. rewrite Hb2. split; [reflexivity|].
+        set (kn3 := handles_of (QImpls (base (f_type fd))) (ask fx S F (QImpls (base (f_type fd)))) ++ kn2).
+        destruct (ask fx S F (QImpls (base (f_type fd)))) as [| | | | [cands|] | | | |] eqn:AI; try exact I.
+        destruct (mem (f_ret fd) cands) eqn:M; [|exact I].
+        apply IH.
+        * unfold kn3. apply mem_app_l. simpl. exact M.
+        * intros t Ht. unfold kn3. apply mem_app_r. auto.
+    - (* CFrag *)
+      cbn [cexec wp handle_args forallb].
+      assert (Ht : mem t known = true) by (apply Hf; left; reflexivity).
+      rewrite Ht. split; [reflexivity|].
+      set (kn1 := handles_of (QNamedE t) (ask fx S F (QNamedE t)) ++ known).
+      assert (Hi1 : incl_known known kn1) by apply incl_known_app.
+      destruct (ask fx S F (QNamedE t)) as [[h|] | | | | | | | |] eqn:AN; try exact I.
+      assert (Hh : h = t).
+      { simpl in AN. destruct (lookup S t) as [x|]; [|destruct (mem t meta_names); discriminate].
+        inversion AN; reflexivity. }
+      subst h.
+      cbn [wp handle_args forallb]. rewrite (Hi1 obj Ho), (Hi1 t Ht). split; [reflexivity|].
+      destruct (ask fx S F (QApplies obj t)) as [| | | | | | | [|] |]; try exact I.
+      apply IH.
+      + apply mem_app_r. apply Hi1. exact Ho.
+      + intros t0 Ht0. apply mem_app_r. apply Hi1. apply Hf. right; exact Ht0.
+  Qed.
+
+  Theorem chain_prog_disciplined c : exists r, snd (run fx S F [] (chain_prog c)) = Done r.
+  Proof.
+    apply (wp_run _ [] (fun _ _ => True)).
+    unfold chain_prog. cbn [wp handle_args forallb]. split; [reflexivity|].
+    set (kn0 := handles_of (QRoot RQuery) (ask fx S F (QRoot RQuery)) ++ []).
+    simpl in kn0. cbn [ask]. cbv beta iota.
+    apply wp_bind.
+    eapply wp_mono; [|apply (cval_wp c 0 (Some (query S)) kn0)].
+    - intros errs kn [Hi Hfr]. destruct (is_nil errs) eqn:N; [|exact I].
+      apply is_nil_true in N. apply wp_bind. eapply wp_mono; [|apply (cexec_wp c (query S) [] kn)].
+      + intros a kn' _. exact I.
+      + apply Hi. unfold kn0. apply mem_head.
+      + apply Hfr. exact N.
+    - simpl. unfold kn0. apply mem_head.
+  Qed.
+
+  Theorem chain_validate_disciplined c : exists r, snd (run fx S F [] (chain_validate c)) = Done r.
+  Proof.
+    apply (wp_run _ [] (fun _ _ => True)).
+    unfold chain_validate. cbn [wp handle_args forallb]. split; [reflexivity|].
+    cbn [ask]. cbv beta iota.
+    eapply wp_mono; [|apply (cval_wp c 0 (Some (query S)))].
+    - intros; exact I.
+    - simpl. apply mem_head.
+  Qed.
+End Discipline.
+
+(** ** the view with fewer features is the erasure of the view with more: enabling features makes
+    exactly the elements appear whose requirements have become satisfied *)
+Section EraseErase.
+  Variable S : schema.
+  Variables F F' : features.
+  Hypothesis Hnd : nodup (map fst (types S)) = true.
+  Hypothesis HFF : subset F F' = true.
+
+  Lemma visible_erase_smaller n : visible (erase S F') F n = visible S F n.
+  Proof.
+    unfold visible at 1. rewrite (lookup_erase S F' Hnd). unfold visible.
+    destruct (lookup S n) as [x|]; [|reflexivity].
+    destruct (subset (type_req x) F') eqn:V'.
+    - rewrite type_req_erase. reflexivity.
+    - destruct (subset (type_req x) F) eqn:V; [|reflexivity].
+      rewrite (subset_trans _ _ _ V HFF) in V'. discriminate.
+  Qed.
+
+  Lemma visible_smaller n : visible S F n = true -> visible S F' n = true.
+  Proof.
+    unfold visible. destruct (lookup S n) as [x|]; [|discriminate]. intro V. eapply subset_trans; eauto.
+  Qed.
+
+  Lemma filter_smaller {A} (p p' : A -> bool) l :
+    (forall x, p x = true -> p' x = true) -> filter p (filter p' l) = filter p l.
+  Proof.
+    intro H. rewrite filter_filter. apply filter_ext. intro x.
+    destruct (p x) eqn:P; [rewrite (H x P); reflexivity | apply andb_false_r].
+  Qed.
+
+  Lemma erase_fields_smaller fs : erase_fields F (erase_fields F' fs) = erase_fields F fs.
+  Proof.
+    unfold erase_fields. apply filter_smaller. intros nf V. eapply subset_trans; eauto.
+  Qed.
+
+  Lemma names_smaller l :
+    filter (visible (erase S F') F) (filter (visible S F') l) = filter (visible S F) l.
+  Proof.
+    rewrite (filter_ext _ _ visible_erase_smaller). apply filter_smaller. apply visible_smaller.
+  Qed.
+
+  Lemma erase_type_smaller x :
+    erase_type (visible (erase S F') F) F (erase_type (visible S F') F' x) = erase_type (visible S F) F x.
+  Proof.
+    destruct x; simpl; try reflexivity.
+    - rewrite erase_fields_smaller, names_smaller. reflexivity.
+    - rewrite erase_fields_smaller. reflexivity.
+    - rewrite names_smaller. reflexivity.
+  Qed.
+
+  Lemma erase_root_smaller r :
+    erase_root (visible (erase S F') F) (erase_root (visible S F') r) = erase_root (visible S F) r.
+  Proof.
+    destruct r as [n|]; simpl; [|reflexivity].
+    destruct (visible S F' n) eqn:V'; simpl.
+    - rewrite visible_erase_smaller. reflexivity.
+    - destruct (visible S F n) eqn:V; [|reflexivity]. rewrite (visible_smaller n V) in V'. discriminate.
+  Qed.
+
+  Theorem erase_erase : erase (erase S F') F = erase S F.
+  Proof.
+    set (E' := erase S F').
+    unfold erase. f_equal.
+    - replace (types E') with (map (fun nt => (fst nt, erase_type (visible S F') F' (snd nt)))
+                                   (filter (fun nt => subset (type_req (snd nt)) F') (types S))) by reflexivity.
+      rewrite filter_map. rewrite map_map. cbn [fst snd].
+      rewrite (filter_ext _ (fun nt => subset (type_req (snd nt)) F))
+        by (intro nt; rewrite type_req_erase; reflexivity).
+      rewrite filter_smaller by (intros nt V; eapply subset_trans; eauto).
+      apply map_ext. intro nt. unfold E'. rewrite erase_type_smaller. reflexivity.
+    - replace (mutation E') with (erase_root (visible S F') (mutation S)) by reflexivity.
+      unfold E'. apply erase_root_smaller.
+    - replace (subscription E') with (erase_root (visible S F') (subscription S)) by reflexivity.
+      unfold E'. apply erase_root_smaller.
+    - replace (additional E') with (filter (visible S F') (additional S)) by reflexivity.
+      unfold E'. apply names_smaller.
+  Qed.
+End EraseErase.
